@@ -47,7 +47,7 @@ class LoopMixin:
         """Returns (guard(st)->Bool, advance(st)->Value(s) to bind, decreases(st)->Int)."""
         from .symex import EngineError
         from . import builtins_model as bm
-        cur_key = ("g", f"cursor{id(node)}", "int")
+        cur_key = ("g", f"cursor_L{node.lineno}c{node.col_offset}", "int")
         if isinstance(itv, SFunc) and itv.what == "builtin_iter":
             kind, srcs = itv.payload
             if kind == "enumerate":
@@ -166,7 +166,7 @@ class LoopMixin:
                     s.env[_lc["iter_name"]] = src
             except EngineError:
                 pass
-            cur_key = ("g", f"cursor{id(n)}", "int")
+            cur_key = ("g", f"cursor_L{n.lineno}c{n.col_offset}", "int")
             s.heap.set(cur_key, z3.IntVal(0))
             uses_cursor = not (isinstance(itv, SRef) and itv.kind == "iter:str")
             def head(s2):
